@@ -202,6 +202,9 @@ class Problem:
         if f == 'linpos':      # increasing in every variable (material cost): pushes against 'rec' constraints
             cp = np.abs(self.clin) + 0.2
             return 2.0 + cp @ u, cp / w, np.zeros((n, n))
+        if f == 'lin0':        # the same cost without offset: exactly 0.0 at the lower bounds (an objective that vanishes)
+            cp = np.abs(self.clin) + 0.2
+            return cp @ u, cp / w, np.zeros((n, n))
         kind, par = f
         if kind == 'vol':
             den = par * np.sum(self.wvol)
